@@ -212,7 +212,9 @@ fn process_dir(
         while pending.last().is_some_and(|dir| dir.depth() >= depth) {
             ready.extend(pending.pop());
         }
-        match result.map(|r| WalkEntry::from_walkdir(r, config.follow)) {
+        match result
+            .map(|r| WalkEntry::from_walkdir(r, config.follow).map(|e| e.under_starting_point(dir)))
+        {
             Some(Err(err)) => {
                 ret = 1;
                 // A diagnostic that cannot be written must not stop the walk.
